@@ -281,6 +281,12 @@ class ParseRecv(ICommParseRecv):
         if hdr.err is not EParseError.NOERR:
             return
 
+        # declared length must cover hdr + footer and fit in received data
+        if hdr.flen < (self._frame.hdr_len + self._frame.foot_len):
+            return
+        if hdr.flen > len(data):
+            return
+
         # validate hdr
         if self._frame.foot_validate(data[: hdr.flen]) is False:
             return
